@@ -175,3 +175,50 @@ func DiffPath(want, got string) string {
 	}
 	return d
 }
+
+// VisitPtrs calls fn for every non-nil pointer-to-struct reachable from v
+// through exported fields (unlike influxql.Walk it needs no per-type case, so
+// it also reaches the statement kinds Walk does not descend into).
+func VisitPtrs(v interface{}, fn func(p interface{})) {
+	visit(reflect.ValueOf(v), fn, 0)
+}
+
+func visit(v reflect.Value, fn func(p interface{}), depth int) {
+	if !v.IsValid() || depth > 100000 {
+		return
+	}
+	switch v.Kind() {
+	case reflect.Interface:
+		if !v.IsNil() {
+			visit(v.Elem(), fn, depth+1)
+		}
+	case reflect.Ptr:
+		if v.IsNil() || v.Type() == regexpT || v.Type() == locT {
+			return
+		}
+		if v.Elem().Kind() == reflect.Struct {
+			if v.CanInterface() {
+				fn(v.Interface())
+			}
+		}
+		visit(v.Elem(), fn, depth+1)
+	case reflect.Struct:
+		if v.Type() == timeT {
+			return
+		}
+		t := v.Type()
+		for i := 0; i < t.NumField(); i++ {
+			if t.Field(i).PkgPath == "" {
+				visit(v.Field(i), fn, depth+1)
+			}
+		}
+	case reflect.Slice, reflect.Array:
+		for i := 0; i < v.Len(); i++ {
+			visit(v.Index(i), fn, depth+1)
+		}
+	case reflect.Map:
+		for _, k := range v.MapKeys() {
+			visit(v.MapIndex(k), fn, depth+1)
+		}
+	}
+}
